@@ -1821,6 +1821,23 @@ fn templates() -> Vec<Vec<Stmt>> {
             t.push(q);
         }
     }
+    // a context provided by a computation's run goes with the re-run also when a cleanup put something into the scope during
+    // the teardown (the re-run provides again / looks the value up)
+    for memo in [false, true] {
+        for inner in [vec![Signal(5)], vec![Cleanup(vec![])], vec![Effect(vec![Use(0)])]] {
+            let body = vec![Read(0), Use(0), Provide(0, Ex::AccPlus(10)), Use(0)];
+            let mut p = vec![Signal(0), if memo { Memo(body) } else { Effect(body) }];
+            p.push(RunIn(1, vec![Cleanup(vec![RunIn(1, inner.clone())])]));
+            p.extend([s_set(0, 1), RunIn(1, vec![Use(0)]), s_set(0, 2), Dispose(1)]);
+            t.push(p);
+            // the provision happens only in the first run: afterwards the scope provides nothing
+            let body = vec![Read(0), IfPos(0, vec![Use(0)], vec![Provide(0, Ex::C(7))]), Scope(vec![Use(0)])];
+            let mut q = vec![Signal(0), Provide(0, Ex::C(1)), if memo { Memo(body) } else { Effect(body) }];
+            q.push(RunIn(1, vec![Cleanup(vec![RunIn(1, inner.clone())])]));
+            q.extend([s_set(0, 1), RunIn(1, vec![Use(0)]), s_set(0, 0)]);
+            t.push(q);
+        }
+    }
     // computations created INSIDE a batch whose first run reads a signal and writes it (the subscription is recorded
     // only after the run, the write is queued: the computation re-runs once when the outermost batch ends)
     for memo in [false, true] {
